@@ -340,10 +340,44 @@ def run(ctx):
             continue
         check_case(ctx, case, o["value"])
     run_empty_keys(ctx)
+    run_console_encodings(ctx)
     ctx.obs["commands_with_violations"] = sorted(k[4:] for k in ctx.counters if k.startswith("cmd:"))
     missing = [c for c in triggers.CMDS if "cmd:" + c not in ctx.counters]
     ctx.inconclusive_if(ctx.counters["runs_with_many"] < 10 or ctx.counters["runs_with_0"] < 10, "too few many/zero-violation runs observed")
     conformance(ctx, [c for c in cases if c["kind"] == "lint"][:8] + [c for c in cases if c["kind"] == "usage"])
+
+
+def console_encoding_job(arg):
+    files, cmd, enc, fmt = arg
+    d = runner.new_dir("c")
+    runner.write_tree(d, files)
+    ref = runner.cli_real([cmd, "--format", "json", "."], d)
+    vs = ref.violations()
+    r = runner.cli_real([cmd, "--format", fmt, "."], d, env={"PYTHONIOENCODING": enc, "PYTHONUTF8": "0"})
+    return {"ref_exit": ref.exit, "ref_n": None if vs is None else len(vs), "exit": r.exit, "out_len": len(r.out), "err": r.err[-200:]}
+
+
+def run_console_encodings(ctx):
+    """The exit-code law under a console encoding that cannot represent every character of the report (the check mark of a clean text run,
+    a non-ASCII path or message): real console script, PYTHONIOENCODING = latin-1 / ascii / cp1252."""
+    clean = {"src/clean.py": "def ok(a):\n    return a\n"}
+    hostile = {"src/caf\u00e9 \u751f\u6210.py": "def größe(a):\n    print(a)\n    return a * 4711\n", "src/plain.py": "def p(a):\n    print(a)\n    return a * 4712\n"}
+    jobs = [(files, cmd, enc, fmt) for files, cmd in ((clean, "nesting"), (clean, "magic-numbers"), (hostile, "magic-numbers"), (hostile, "improper-logging"))
+            for enc in ("latin-1", "ascii", "cp1252") for fmt in (("text", "json", "sarif") if not ctx.quick else ("text",))]
+    for (files, cmd, enc, fmt), o in zip(jobs, runner.pmap(console_encoding_job, jobs, timeout=300)):
+        if not o.get("ok"):
+            ctx.inconclusive_if(True, "console-encoding job failed in harness: %s" % str(o)[:200])
+            continue
+        v = o["value"]
+        ctx.evaluations += 1
+        ctx.count("console_encoding_runs")
+        ctx.nontrivial(["console-encoding", cmd, enc, fmt, "clean" if files is clean else "non-ascii"])
+        if v["ref_n"] is None or v["ref_exit"] not in (0, 1):
+            ctx.inconclusive_if(True, "console-encoding reference run failed: exit %s" % v["ref_exit"])
+            continue
+        if v["exit"] != v["ref_exit"]:
+            ctx.discrepancy("exit-code-under-console-encoding:%s" % ("clean-run" if files is clean else "non-ascii-report"), "`%s --format %s .` with PYTHONIOENCODING=%s: exit %s, the same run with a UTF-8 console: exit %s with %d violation(s) (stderr: %s)" % (
+                cmd, fmt, enc, v["exit"], v["ref_exit"], v["ref_n"], v["err"][-120:]), {"argv": [cmd, "--format", fmt, "."], "env": {"PYTHONIOENCODING": enc}}, files)
 
 
 def empty_key_job(arg):
